@@ -11,14 +11,12 @@ import (
 
 // ---------------------------------------------------------------- hand-written tables (see notes/design-C12-C13.md)
 
-// callback slots of the generic cache, bound per cache class: (cache qualifier, slot) -> closure name ("" = the slot is nil)
-var slotTable = map[string]map[string]string{
-	"dir.repos":            {"pruneFn": "store.NewDir$PruneFn", "prunePreFn": "", "prunePostFn": ""},
-	"dirRepo.uploads":      {"pruneFn": "dir.RepoGet$PruneFn", "prunePreFn": "dir.RepoGet$PrunePreFn", "prunePostFn": "dir.RepoGet$PrunePostFn"},
-	"memRepo.uploads":      {"pruneFn": "", "prunePreFn": "", "prunePostFn": ""},
-	"Server.referrerCache": {"pruneFn": "", "prunePreFn": "", "prunePostFn": ""},
-	"Server.rateLimit":     {"pruneFn": "", "prunePreFn": "", "prunePostFn": ""},
-}
+// callback slots of the generic cache per cache class: (cache qualifier, slot) -> closure name ("" = the slot is nil).
+// Derived in deriveSlots from the cache.New call sites: which field receives the cache and which Opts keys are set
+// (so the binding follows a repair that adds or drops a hook); echoed into Generated.lockSlots.
+var slotTable = map[string]map[string]string{}
+
+var slotOfKey = map[string]string{"PruneFn": "pruneFn", "PrunePreFn": "prunePreFn", "PrunePostFn": "prunePostFn"}
 
 // calls that leave the analysed packages and matter for the lock program
 var externals = map[string]string{
